@@ -144,6 +144,7 @@ def run(chk):
     _, il, _ = vlib.run_pair(None, w, cases, timeout=2400)
     ml, _, _ = vlib.run_pair(mexe, None, [l or 'x' for l in il], timeout=2400)
     classes, ndis, dist, pstat = set(), 0, {}, {}
+    pending = []
     for c, mt, i, m in zip(cases, meta, il, ml):
         dist[mt['font']] = dist.get(mt['font'], 0) + 1
         if i is None:
@@ -164,6 +165,8 @@ def run(chk):
         # segment backwards, justify takes pLast->nextSibling() for the slot after the line and links both end-of-line slots before one slot
         kle = 'justify-rtl-line-end-slots-linked-before-one-slot' if (kc is None and mt['font'].endswith('~lineend') and fdir == 1 and (mt['dir'] & 1) == 1) else None
         if 'ABORT' in head[1:3]:
+            if kc is None and mt['font'].endswith('~lineend') and (mt['dir'] & 1) == 1 and run.fdirs.get(mt['font'].split('~')[0], fdir) in (1, None):
+                pending.append((c, i, 'line breaking / justification did not return normally: %s' % parts[0][:200])); continue
             key = 'c19:' + kc if kc else 'c19:abort:%s' % ' '.join(c.split()[2:12])[:140]
             chk.violation(key, 'line breaking / justification did not return normally: %s' % parts[0][:200], dict(case=c, got=i[:500])); continue
         if head[1] in ('NOFACE', 'NULLSEG'):
@@ -181,6 +184,10 @@ def run(chk):
             # reproduce the damaged links exactly
             if kle and not expected and pm == 'ok' and all(b.split()[1].split(':')[-1].split('(')[0].split('@')[0] in ('prev-not-inverse', 'first-has-prev') for b in bad):
                 key, expected = 'c19:' + kle, True
+            elif kle and not expected and sum(1 for o in c.split() if o.startswith('just:')) > 1:
+                # several justify calls: once the recorded defect has struck, the segment's free list runs through live slots and later calls
+                # go wrong in any number of ways; the calls are judged one at a time below
+                pending.append((c, i, 'after linebreak/justify a line is no longer the same well-formed chain: %s' % bad[0][:120])); continue
             chk.violation(key, 'after linebreak/justify a line is no longer the same well-formed chain: %s%s' % (bad[0][:120], '' if expected else
                           (' (the links differ from what the recorded code does to them: %s)' % (m or '').split(' | P ', 1)[-1][:300] if pm != 'ok' else ' (outside the recorded trigger classes)')),
                           dict(case=c, got=i[:1500]))
@@ -189,10 +196,39 @@ def run(chk):
             chk.tie_break('correspondence:line-links', 'the slot links after linebreak / justify differ from Model/LinePtrModel.v although every line is intact: %s' % (m or '').split(' | P ', 1)[-1][:400], c[:300])
         pstat['%s %s %s' % ('damaged' if bad else 'intact', 'known-class' if kc else 'no-class', pm)] = pstat.get('%s %s %s' % ('damaged' if bad else 'intact', 'known-class' if kc else 'no-class', pm), 0) + 1
         mres = (m or '').split(' | P ')[0].split()
-        if kc is None and (len(mres) < 3 or mres[2] not in ('ok', 'none')):
+        if kc is None and kle is None and (len(mres) < 3 or mres[2] not in ('ok', 'none')):      # (the list-level model knows neither reversals nor end-of-line slots)
             ndis += 1
             chk.tie_break('correspondence:lines', 'replay through Model/LineModel.v diverges where no reversal is expected: %s' % (m or '')[:500], c[:300])
         classes.add((mt['font'], mt['dir'], min(mt['nb'], 3), bool(bad), kc is not None))
+    # cases of the right-to-left line-end class with several justify calls (or one that did not return): the prefix of the case that ends
+    # with its first failing call decides -- if that call shows exactly the recorded damage (reproduced link by link by the pointer-level
+    # replay), everything after it is the consequence of a free list that runs through live slots
+    if pending:
+        pref, owner = [], []
+        for k, (c, i, what) in enumerate(pending):
+            f = c.split()
+            jidx = [n for n, o in enumerate(f) if o.startswith('just:')]
+            for m, j in enumerate(jidx):
+                pref.append(' '.join(['q%d.%d' % (k, m)] + f[1:j + 1])); owner.append((k, m))
+        _, pil, _ = vlib.run_pair(None, w, pref, timeout=2400)
+        pml, _, _ = vlib.run_pair(mexe, None, [l or 'x' for l in pil], timeout=2400)
+        verdict = {}
+        for (k, m), pc, pi, pm_ in zip(owner, pref, pil, pml):
+            if k in verdict:
+                continue
+            if pi is None or 'ABORT' in pi.split()[1:3]:
+                verdict[k] = False; continue                      # the first call that goes wrong does not even return: not the recorded damage
+            pb = [p_ for p_ in pi.split(' | ')[1:] if p_.startswith('just ') and p_.split()[1] not in ('ok', 'skip')]
+            if not pb:
+                continue                                          # this prefix is still intact
+            ppm = (pm_ or '').split(' | P ', 1)[1].split()[0] if ' | P ' in (pm_ or '') else 'none'
+            verdict[k] = ppm == 'ok' and all(b.split()[1].split(':')[-1].split('(')[0].split('@')[0] in ('prev-not-inverse', 'first-has-prev') for b in pb)
+        for k, (c, i, what) in enumerate(pending):
+            if verdict.get(k):
+                chk.violation('c19:justify-rtl-line-end-slots-linked-before-one-slot', what + ' (a consequence of the recorded damage of an earlier call of the same case)', dict(case=c, got=i[:1500]))
+            else:
+                chk.violation('c19:%s' % ' '.join(c.split()[2:14])[:170], what + ' (right-to-left line with line-end slots, but the first failing call does not show the recorded damage)', dict(case=c, got=i[:1500]))
+        pstat['judged call by call'] = len(pending)
     dist.update({'ptr-model: ' + k: v for k, v in pstat.items()})
     chk.cov.update(evaluations=len(cases), distinct_nontrivial=len(classes), disagreements_checked=ndis, distribution=dist,
                    rule='segments over the 16 shipped fonts (dir 0..7, with/without gr_font) cut at every subset of interior positions (short texts) or random positions, each line justified '
